@@ -83,10 +83,17 @@ def presentations(r):
     return [tuple(p) for p in product(*[list(permutations(b)) for b in r])]
 
 
+class ConstructionFailed(Exception):
+    """the library refused to build a valid dataset (distinct labels, disjoint buckets)."""
+
+
 def build(pres_list, labels, name):
     """pres_list: list of presentations (tuples of tuples giving insertion order)."""
     R, D = _lib['R'], _lib['D']
-    d = D([R([ordered_set(labels[x] for x in b) for b in pres]) for pres in pres_list])
+    try:
+        d = D([R([ordered_set(labels[x] for x in b) for b in pres]) for pres in pres_list])
+    except Exception as e:
+        raise ConstructionFailed(pres_list, e)
     d.name = name
     return d
 
@@ -262,14 +269,30 @@ def run_typed(ctx):
 
 def run_shard(sh):
     ctx = Ctx(ID)
+    try:
+        _run_shard(ctx, sh)
+    except ConstructionFailed as cf:
+        # equality cannot even be asked: reported once per shard, the rest of the shard is not explored
+        ctx.violation('valid-dataset-cannot-be-constructed', {'cfg': {}, 'kind': 'construct', 'labels': sh.get('labels'),
+                                                              'a': [list(map(list, p)) for p in cf.args[0]], 'b': []},
+                      None, 'a dataset', exc=cf.args[1])
+    return ctx.result()
+
+
+def _run_shard(ctx, sh):
     {'variants': run_variants, 'cross_pres': run_cross_pres, 'cross_canon': run_cross_canon, 'history': run_history}.get(
         sh['kind'], lambda c, s: run_typed(c))(ctx, sh)
-    return ctx.result()
 
 
 def replay(ctx, c):
     if c.get('kind') == 'typed':
         return run_typed(ctx)
+    if c.get('kind') == 'construct':
+        try:
+            build([tuple(tuple(b) for b in r) for r in c['a']], _lib['labels'][c['labels']], 'x')
+        except ConstructionFailed as cf:
+            ctx.violation('valid-dataset-cannot-be-constructed', c, None, 'a dataset', exc=cf.args[1])
+        return
     if c.get('kind') == 'history':
         swo = spaces.sub_weak_orders(c['n'])
         ds0 = tuple(tuple(tuple(b) for b in r) for r in c['a'])
